@@ -57,8 +57,8 @@ CHECKS["C04"] = {
 	"technique": BMCT + " under a lossless-codec model",
 }
 CHECKS["C11"] = {
-	"text": "Varint/zigzag/PBF value codecs decided for all 64-bit values; VectorTileLayer::read and read->to_blob->read compared against ground truth produced by an independent MVT encoder in the harness, with key/value tables that contain duplicates: every tag must still denote its ground-truth key and value, ids/geometry bytes/types unchanged.",
-	"note": "Layer shape concrete per instance (1-2 table entries, 1 feature, 1 tag pair), contents symbolic; HashMap model. Outside: the update_properties operation (Runner::run, BTreeMap-based GeoProperties), CSV, geometry decoding.",
+	"text": "The varint and zigzag primitives every vector-tile field is written and read with: write_varint/read_varint and write_svarint/read_svarint are mutually inverse for ALL u64 / i64 values, canonical length, exact consumption (this found the arithmetic-shift defect of read_svarint for |v| >= 2^62).",
+	"note": "Only the primitives: layer / feature / value decoding reads through Box<dyn ValueReader> sub-readers and produced no verdict within 2400 s even on structured inputs (harnesses kept unregistered); the update_properties operation is async + dyn. So the statement about whole tiles is NOT decided.",
 	"technique": BMCT + "; differential against ground truth from an independent encoder",
 }
 CHECKS["C05"] = {
@@ -112,6 +112,8 @@ NOT_APPLICABLE = {
 NOT_APPLICABLE["C08"] = ("from_overlayed is a Vec<Box<dyn OperationTrait>> of async_trait operations: every harness that polls Operation::get_tile_data / get_tile_stream "
 	"(2 echo sources, concrete level, codecs stubbed, futures leaked) ran out of memory (5-38 GB) or time without a verdict - CBMC unwinds the dynamic dispatch recursively together with anyhow's drop glue "
 	"(DESIGN.md 0.2 item 3); nothing decisive of the property is left outside that code")
+NOT_APPLICABLE["C10"] = ("the merge operation is a Vec<Box<dyn OperationTrait>> of async sources (out of reach, see C08); its layer-level kernel VectorTileLayer::add_from_layer on two structured layers "
+	"(2 table entries, 1 feature each, HashMap model) still reads through Box<dyn ValueReader> sub-readers and BTreeMap-based GeoProperties and produced no verdict in 2400 s / 10 GB")
 NOT_APPLICABLE["C17"] = ("the JSON string kernel did not finish at its smallest bound: escape_json_string with real formatting on ONE char and parse_quoted_json_string on one production each timed out at 1200 s "
 	"(ByteIterator with its 4 KiB buffer and boxed dyn Read, char::is_control tables, format!); numbers (dec2flt) and TileJSON round trips (BTreeMap, regex, async I/O) are further out (DESIGN.md 0.2 item 5, section 8 fallback rule)")
 PENDING = "check under construction in this session (harness set not yet registered)"
